@@ -170,12 +170,31 @@ TRACKED: list = []  # (BytesIO, original bytes): caller-supplied in-memory handl
 GRAVEYARD: list = []  # handles that still have buffer exports when released: kept alive for the life of the process
 
 
+import io as _io
+
+MUTATION_CALLS: list = []  # write/truncate calls the library made on a tracked in-memory handle
+
+
+class RecordingBytesIO(_io.BytesIO):
+    """A writable in-memory handle, as a caller may well supply one: mutating calls go through but are recorded."""
+
+    def write(self, b):
+        MUTATION_CALLS.append(("write", self.tell(), len(b)))
+        return super().write(b)
+
+    def writelines(self, lines):
+        MUTATION_CALLS.append(("writelines", self.tell()))
+        return super().writelines(lines)
+
+    def truncate(self, size=None):
+        MUTATION_CALLS.append(("truncate", size))
+        return super().truncate(size)
+
+
 def track(data: bytes):
     """io.BytesIO(data), registered so that (a) C09 can verify that the library never changes its content and (b) it is only
     released once no buffer export is left (deallocating a BytesIO with live exports crashes the interpreter)."""
-    import io
-
-    bio = io.BytesIO(data)
+    bio = RecordingBytesIO(data)
     TRACKED.append((bio, data))
     return bio
 
